@@ -130,6 +130,16 @@ namespace verif
 '''
 
 
+def base_type(typ):
+    """The object type behind an extern's C++ text (strip const and a trailing reference)."""
+    typ = typ.strip()
+    if typ.endswith('&'):
+        typ = typ[:-1].strip()
+    if typ.startswith('const '):
+        typ = typ[6:].strip()
+    return typ
+
+
 def ns_open(ids):
     return ''.join(f'namespace {i} {{ ' for i in ids)
 
@@ -144,7 +154,7 @@ def fn_type(info, itf, evt):
     return f'std::function<{ret}({args})>'
 
 
-def handler(info, itf, evt, side, port, client_expr='""'):
+def handler(info, itf, evt, side, port, client_expr='""', reactions=False):
     """A recording handler lambda body for event evt (component side or user side)."""
     ret, kind = info.reply_cpp(itf, evt)
     params = ', '.join(info.formal_cpp(itf, f) + ('&' if f['dir'] != 'in' else '') + f' a{i}' for i, f in enumerate(evt['formals']))
@@ -153,12 +163,15 @@ def handler(info, itf, evt, side, port, client_expr='""'):
             f'verif::entry e{{"{side}", "{port}", "{evt["name"]}", verif::ctx_name(), {client_expr}, {{{ins}}}, {{}}, 0, false}};']
     for i, frm in enumerate(evt['formals']):
         if frm['dir'] != 'in':
-            body.append(f'a{i} = verif::mk<{info.formal_cpp(itf, frm)}>(verif::next_out()); e.outs.push_back(verif::val(a{i}));')
+            body.append(f'a{i} = verif::mk<{base_type(info.formal_cpp(itf, frm))}>(verif::next_out()); e.outs.push_back(verif::val(a{i}));')
     if ret != 'void':
         body.append(f'e.reply = verif::reply_for("{port}", "{evt["name"]}");')
     else:
         body.append(f'(void)verif::reply_for("{port}", "{evt["name"]}");')     # lets the mock arbiter see releases
     body.append('verif::record(e);')
+    if side == 'comp' and reactions:
+        body.append(f'{{ auto rit = verif::S().react.find("{port}.{evt["name"]}"); if (rit != verif::S().react.end()) '
+                    '{ dzn::verif::harness_depth() -= 1; verif_react(rit->second); dzn::verif::harness_depth() += 1; } }')
     body.append(f'verif::yield_point("handler/{side}/{port}/{evt["name"]}");')
     if ret != 'void':
         body.append(f'return static_cast<{ret}>(e.reply);' if kind != 'builtin' or ret == 'int' else 'return e.reply != 0;')
@@ -173,9 +186,9 @@ def model_header(info):
            '#include <functional>', '#include <string>', '#include "verif_rt.hh"', HELPERS]
     seen = set()
     for dcl in decls:
-        if dcl['kind'] == 'extern' and dcl['cpp'].startswith('::vt::') and dcl['cpp'] not in seen:
-            seen.add(dcl['cpp'])
-            name = dcl['cpp'][6:]
+        if dcl['kind'] == 'extern' and base_type(dcl['cpp']).startswith('::vt::') and base_type(dcl['cpp']) not in seen:
+            seen.add(base_type(dcl['cpp']))
+            name = base_type(dcl['cpp'])[6:]
             out.append(f'namespace vt {{ struct {name} {{ int v; {name}() : v(0) {{}} explicit {name}(int x) : v(x) {{}} }}; }}')
     itf_fqns = {tuple(d['fqn']) for d in decls if d['kind'] == 'interface'}
     for dcl in decls:
@@ -213,6 +226,15 @@ def model_header(info):
     for prt in info.ports:
         lines.append(f'  {cpp_fqn(prt["itf"]["fqn"])} {prt["name"]};')
     lines.append(f'  static {name}*& last() {{ static {name}* l = nullptr; return l; }}')
+    lines.append('  void verif_react(const std::string& what) {   // the component raises an out-event while handling an in-event')
+    for prt in info.ports:
+        if prt['dir'] != 'provides':
+            continue
+        for evt in prt['itf']['events']:
+            if evt['dir'] == 'out':
+                args = ', '.join(f'verif::mk<{base_type(info.formal_cpp(prt["itf"], f))}>({771 + i})' for i, f in enumerate(evt['formals']))
+                lines.append(f'    if (what == "{prt["name"]}.{evt["name"]}") {{ {prt["name"]}.out.{evt["name"]}({args}); return; }}')
+    lines.append('  }')
     inits = []
     for prt in info.ports:
         n = prt['name']
@@ -228,7 +250,8 @@ def model_header(info):
         for evt in prt['itf']['events']:
             mine = (prt['dir'] == 'provides' and evt['dir'] == 'in') or (prt['dir'] == 'requires' and evt['dir'] == 'out')
             if mine:
-                lines.append(f'    {prt["name"]}.{evt["dir"]}.{evt["name"]} = {handler(info, prt["itf"], evt, "comp", prt["name"])};')
+                lines.append(f'    {prt["name"]}.{evt["dir"]}.{evt["name"]} = '
+                             f'{handler(info, prt["itf"], evt, "comp", prt["name"], reactions=(prt["dir"] == "provides"))};')
             elif prt['inj']:      # an injected port is bound through the locator by Dezyne itself
                 lines.append(f'    {prt["name"]}.{evt["dir"]}.{evt["name"]} = {handler(info, prt["itf"], evt, "injected", prt["name"])};')
     lines.append('  }')
@@ -416,7 +439,7 @@ int main(int argc, char** argv)
       if (bits[2] == '1') user_loc.set(other_service);
       auto before = user_loc.verif_contents();
       COMP::last() = nullptr;
-      { verif::state& s = verif::S(); std::unique_lock<std::mutex> lock(s.m); s.out_counter = 0; s.script.clear(); s.arbiter.clear(); }
+      { verif::state& s = verif::S(); std::unique_lock<std::mutex> lock(s.m); s.out_counter = 0; s.script.clear(); s.arbiter.clear(); s.react.clear(); }
       try {
         sh.reset(new SHELL(CTORARGS));
         COMP* c = COMP::last();
@@ -447,6 +470,7 @@ int main(int argc, char** argv)
             res = std::string("{\"ok\":true,\"parent_recorded\":") + (COMP::last()->dzn_meta.parent == &parent_meta ? "true" : "false") + "}"; }
       CATCH_ALL(res)
     }
+    else if (cmd == "react") { std::string p, e, o; in >> p >> e >> o; verif::S().react[p + "." + e] = p + "." + o; res = "{\"ok\":true}"; }
     else if (cmd == "script") { std::string p, e; int v; in >> p >> e >> v; verif::S().script[p + "." + e] = v; res = "{\"ok\":true}"; }
     else if (cmd == "yielding") { int v; in >> v; verif::state& s = verif::S(); std::unique_lock<std::mutex> lock(s.m);
           s.yielding = v != 0; s.yield_at.clear(); std::string pre; while (in >> pre) s.yield_at.push_back(pre); res = "{\"ok\":true}"; }
@@ -481,7 +505,7 @@ def call_code(info, prt, evt, port_expr, who_expr='who'):
     ret = info.reply_cpp(itf, evt)[0]
     lines, args, k = [], [], 0
     for i, frm in enumerate(evt['formals']):
-        typ = info.formal_cpp(itf, frm)
+        typ = base_type(info.formal_cpp(itf, frm))
         if frm['dir'] in ('in', 'inout'):
             lines.append(f'{typ} x{i} = verif::mk<{typ}>(a.size() > {k} ? a[{k}] : 0);')
             k += 1
@@ -598,7 +622,7 @@ def driver_source(info, shell_hh):
         def direct_call(evt, port_expr, tag):
             decl, args = [], []
             for i, frm in enumerate(evt['formals']):
-                typ = info.formal_cpp(itf, frm)
+                typ = base_type(info.formal_cpp(itf, frm))
                 decl.append(f'{typ} {tag}{i} = verif::mk<{typ}>(1);')
                 args.append(f'{tag}{i}')
             return ' '.join(decl), f'{port_expr}.{evt["dir"]}.{evt["name"]}({", ".join(args)})'
